@@ -172,11 +172,14 @@ pub struct SzxOpts {
     pub with_ay: bool,
     pub with_keyb: bool,
     pub with_mouse: bool,
+    /// with `unknown_chunks`: one of the unknown chunks is larger than any chunk the format defines
+    /// for memory (an embedded tape or disk image)
+    pub big_unknown: bool,
 }
 
 impl Default for SzxOpts {
     fn default() -> Self {
-        SzxOpts { compressed: false, order: 0, unknown_chunks: false, creator: true, halted: false, minor: 4, with_ay: true, with_keyb: true, with_mouse: true }
+        SzxOpts { compressed: false, order: 0, unknown_chunks: false, creator: true, halted: false, minor: 4, with_ay: true, with_keyb: true, with_mouse: true, big_unknown: false }
     }
 }
 
@@ -241,6 +244,7 @@ pub fn szx(s: &MState, o: &SzxOpts) -> Vec<u8> {
     let unk1 = chunk(b"ZXPR", &[0, 0]);
     let unk2 = chunk(b"xYzW", &[1, 2, 3, 4, 5, 6, 7]);
     let unk3 = chunk(b"JOY\0", &[0, 0, 0, 0, 0, 0]);
+    let unk_big = if o.big_unknown { chunk(b"DSK\0", &(0..70001u32).map(|i| (i * 7 + 1) as u8).collect::<Vec<u8>>()) } else { Vec::new() };
     // groups in one of 6 orders
     let mut groups: Vec<Vec<u8>> = Vec::new();
     let mut regs_g = Vec::new();
@@ -272,6 +276,9 @@ pub fn szx(s: &MState, o: &SzxOpts) -> Vec<u8> {
     }
     if o.unknown_chunks {
         f.extend(unk1);
+        if o.big_unknown {
+            f.extend(unk_big);
+        }
     }
     for g in perms[(o.order % 6) as usize] {
         f.extend_from_slice(&groups[g]);
